@@ -611,8 +611,30 @@ static int m_recv(const void *sk, void *buf, const size_t len, const time_t time
 		goto out;
 	}
 	for (;;) {
+		if (s->in_pos < s->in_len && s->cfg.slow_query > 0 && s->queries == s->cfg.slow_query) {
+			/* a cache that answers correctly but slowly: one byte every slow_gap seconds, each within any timeout
+			 * longer than that - only the client's own overall deadline for a PDU ends this */
+			if (!s->slow_started) {
+				s->slow_started = true;
+				s->tfault_on_conn = true;
+				if (s->ex.open)
+					s->ex.transport_fault = true;
+				sim_disturb(s);
+				CNT("sim/slow_answers_started");
+			}
+			if (timeout < (time_t)s->cfg.slow_gap) {
+				if (timeout > 0)
+					sim_time_advance(s, timeout);
+				rv = TR_WOULDBLOCK;
+				goto out;
+			}
+			sim_time_advance(s, (time_t)s->cfg.slow_gap);
+		}
 		if (s->in_pos < s->in_len) {
 			size_t n = chunk(s, s->cfg.chunk_rx, len, s->in_len - s->in_pos);
+
+			if (s->cfg.slow_query > 0 && s->queries == s->cfg.slow_query)
+				n = 1;
 
 			if (s->cfg.intr_at_byte > 0 && !s->intr_fired && s->opens == s->cfg.intr_conn &&
 			    (long)s->delivered_total < s->cfg.intr_at_byte && (long)(s->delivered_total + n) > s->cfg.intr_at_byte)
